@@ -46,6 +46,20 @@ CLAIMS = {
                   "and interpreter are exercised, not verified.",
         technique="Lean 4 theorems over ast-regenerated shapes of the three copies + three-route differential correspondence",
         ref="§3 C05"),
+    "C06": dict(
+        text="Model/Lang.lean is a reference evaluator for kernel sources (subroutines, recursion, closures, loops, branches, device "
+             "calls, parallel blocks, gates, fills, measurements, spec lookups); Model/Inject.lean is InjectSpecRule/InjectSpecsPass on "
+             "that language. Theorem C06_inject_preserves: for every program, entry point, arguments and fuel, the injected program "
+             "run with no spec available returns the same value, events or error as the original run against the spec (induction on "
+             "the evaluation); C06_unknown_fails_both: a lookup of an undefined name raises on both routes and is never replaced. The "
+             "hypothesis that the rule handles every lookup kind is C06_kinds_complete, decided over a table regenerated on every run "
+             "by applying the real InjectSpecRule to all four lookup statements (known/unknown names, constants 0 and 0.0). Tie: each "
+             "generated program is compiled twice from one source (@move, @move(arch_spec=...)) and executed on both routes; both are "
+             "compared with the Lean evaluator.",
+        note=TB + "kirin's CallGraphPass cloning and the fold that follows injection are exercised, not modelled; the evaluator is "
+                  "validated against the real interpreter on every generated run.",
+        technique="Lean 4 semantic-preservation proof by induction on a fuel-indexed evaluator + regenerated rule table + two-route differential runs",
+        ref="§3 C06"),
     "C11": dict(
         text="Theorems: every path the tracer model returns satisfies the well-formedness recogniser WF (invariant by "
              "induction over arbitrary operation sequences), and reversal preserves WF (forward/backward automaton gluing "
